@@ -1,1 +1,32 @@
-Require Import Base Recipe.
+(* C15 -- Container flows and amount remaining balance with the recipe's state. *)
+Require Import Base Units Contents Container Dilute Solve Plate Prog Recipe RecipeThm FlowsThm.
+
+(* amount remaining = the object's own state in the table at the start / at the end of the timeframe
+   (for any timeframe: [steps] is the timeframe's slice of the program, [e] the table when it starts) *)
+Theorem C15_remaining_before : forall cf d13 steps e e' tr u n l,
+  bake_steps cf d13 e steps = Ok (e', tr) -> remaining cf u n false tr = Some l ->
+  exists o, rget n e = Some o /\ l = totals cf u o.
+Proof. exact remaining_before_is_start_state. Qed.
+Print Assumptions C15_remaining_before.
+Theorem C15_remaining_after : forall cf d13 steps e e' tr u n l,
+  bake_steps cf d13 e steps = Ok (e', tr) -> remaining cf u n true tr = Some l ->
+  exists o, rget n e' = Some o /\ l = totals cf u o.
+Proof. exact remaining_after_is_end_state. Qed.
+Print Assumptions C15_remaining_after.
+
+(* flows: never negative; inflow - outflow = total at the end - total at the start, per well *)
+Theorem C15_flows_nonneg : forall cf u n w tr j,
+  0 <= nth j (fst (flows cf u n w tr)) 0 /\ 0 <= nth j (snd (flows cf u n w tr)) 0.
+Proof. exact flows_nonneg. Qed.
+Print Assumptions C15_flows_nonneg.
+Theorem C15_flows_balance : forall cf d13 steps e e' tr u n w o o' j,
+  bake_steps cf d13 e steps = Ok (e', tr) -> rget n e = Some o -> rget n e' = Some o' -> widths_ok cf u n w e tr ->
+  (j < w)%nat ->
+  nth j (fst (flows cf u n w tr)) 0 - nth j (snd (flows cf u n w tr)) 0 == nth j (totals cf u o') 0 - nth j (totals cf u o) 0.
+Proof. exact flows_balance. Qed.
+Print Assumptions C15_flows_balance.
+(* a pure withdrawal never counts as inflow: if no step of the timeframe increases the object's total, inflow is zero *)
+Theorem C15_withdrawal_not_inflow : forall cf u n w tr j,
+  (forall k ch, In k tr -> step_change cf u n k = Some ch -> nth j ch 0 <= 0) -> nth j (fst (flows cf u n w tr)) 0 == 0.
+Proof. exact withdrawal_not_inflow. Qed.
+Print Assumptions C15_withdrawal_not_inflow.
